@@ -62,6 +62,8 @@ class CbScn:
 
             def cb(x):
                 calls.append(x)
+                if P.get("cb_close") and x == END:
+                    ch.close()  # a callback may close its channel when it sees the endmarker
 
             try:
                 if P["endmarker"]:
@@ -70,6 +72,9 @@ class CbScn:
                     ch.setcallback(cb)
             except BaseException as e:  # noqa: BLE001
                 w.observe("setcallback-exc", type(e).__name__, str(e)[:80])
+            if P.get("local_close"):
+                # a local close from another thread racing with the end of the conversation
+                S.user(lambda: ch.close(), "closer")
             try:
                 ch.receive(timeout=0)
                 w.observe("receive-after-setcallback-ok")
@@ -128,7 +133,16 @@ class CbScn:
             return V("pre-receive", f"receive() before setcallback returned {pre}")
         items = [c for c in calls if c != END]
         ends = [i for i, c in enumerate(calls) if c == END]
-        if items != want[P["k"] :]:
+        if P.get("local_close"):
+            # a *local* close racing with in-flight items: the property promises "after the last item"
+            # only for endings caused by the peer / the connection; here: no duplicates, order kept,
+            # and the endmarker exactly once
+            if items != want[P["k"] :][: len(items)]:
+                return V("items", f"callback got {items}, not a prefix of {want[P['k']:]}")
+            if len(ends) != 1:
+                return V("endmarker-count", f"endmarker delivered {len(ends)} times (local close racing with the end of the conversation)")
+            return None, outcome
+        elif items != want[P["k"] :]:
             return V("items", f"callback got {items}, expected {want[P['k']:]}")
         if P["end"] == "block":
             if ends:
@@ -230,6 +244,10 @@ def cases(tier):
                             continue
                         chan = "new" if end == "close" else "exec"
                         cs.append({"n": n, "k": k, "end": end, "chan": chan, "endmarker": endmarker, "delay": delay})
+                        if endmarker and not k and end in ("body-end", "close", "error", "kill"):
+                            cs.append({"n": n, "k": k, "end": end, "chan": chan, "endmarker": True, "delay": delay, "cb_close": True})
+                            if not delay:
+                                cs.append({"n": n, "k": k, "end": end, "chan": chan, "endmarker": True, "delay": delay, "local_close": True})
     return cs
 
 
@@ -243,7 +261,7 @@ def run(tier: str, only=None) -> int:
     else:
         b_sync, b_stmt, cap = {"ps": 3, "free": 2}, {"ps": 1, "pl": 2, "free": 1}, 6000000
     for i, C in enumerate(cases(tier)):
-        name = f"cb/{i}:{C['end']}:n{C['n']}k{C['k']}:{'E' if C['endmarker'] else 'N'}:d{C['delay']}"
+        name = f"cb/{i}:{C['end']}:n{C['n']}k{C['k']}:{'E' if C['endmarker'] else 'N'}:d{C['delay']}" + (":cbclose" if C.get("cb_close") else "") + (":localclose" if C.get("local_close") else "")
         if only and only not in name:
             continue
         P = dict(C, transport="popen", backend="thread")
